@@ -9,6 +9,7 @@ import (
 	"math"
 	"math/big"
 	nethttp "net/http"
+	"strings"
 	"testing"
 	"time"
 
@@ -49,7 +50,7 @@ type LoopCase struct {
 	Deadline bool     `json:"deadline_instead_of_cancel"`
 	// FatalKind: what the non-retriable failure is made of: "" a bespoke error; otherwise an error of that library kind
 	// (a timeout reported by the operation itself is not a reason to try again unless the caller listed it)
-	FatalKind string `json:"fatal_kind,omitempty"` // "" | timeout | notfound | unexpected
+	FatalKind string `json:"fatal_kind,omitempty"` // "" | timeout | notfound | unexpected | ctx-deadline | ctx-cancel (a context error of the attempt's own making, the helper's context being alive)
 }
 
 var errRetriable = errors.New("scripted retriable failure")
@@ -64,6 +65,11 @@ func fatalFor(kind string) error {
 		return fmt.Errorf("%w: no such thing", commonerrors.ErrNotFound)
 	case "unexpected":
 		return commonerrors.ErrUnexpected
+	case "ctx-deadline":
+		// the attempt's own time limit (not the context given to the helper) ran out
+		return fmt.Errorf("the attempt gave up: %w", context.DeadlineExceeded)
+	case "ctx-cancel":
+		return fmt.Errorf("the attempt was called off: %w", context.Canceled)
 	}
 	return errFatalBespoke
 }
@@ -80,7 +86,7 @@ func genLoop(t *rapid.T) LoopCase {
 	c.Entry = rapid.SampledFrom([]string{"RetryIf", "RetryOnError", "http.RetryOnError"}).Draw(t, "entry")
 	c.PreDone = rapid.IntRange(0, 11).Draw(t, "predone") == 0
 	c.Deadline = rapid.Bool().Draw(t, "deadline")
-	c.FatalKind = rapid.SampledFrom([]string{"", "", "timeout", "timeout", "notfound", "unexpected"}).Draw(t, "fatal-kind")
+	c.FatalKind = rapid.SampledFrom([]string{"", "", "timeout", "timeout", "notfound", "unexpected", "ctx-deadline", "ctx-cancel"}).Draw(t, "fatal-kind")
 	return c
 }
 
@@ -228,6 +234,16 @@ func checkLoop(t ev.T, test string, c LoopCase) {
 			if !errors.Is(res, errRetriable) && !errors.Is(res, errFatal) && !commonerrors.Any(res, commonerrors.ErrCancelled, commonerrors.ErrTimeout) {
 				ev.Fail(t, prop, test, c, "result %q is neither the last error nor a context kind", res)
 			}
+		case lastOutcome == oFatal && strings.HasPrefix(c.FatalKind, "ctx-"):
+			// "context errors being reported as 'cancelled' / 'timeout'": whoever's context it was
+			want := commonerrors.ErrTimeout
+			if c.FatalKind == "ctx-cancel" {
+				want = commonerrors.ErrCancelled
+			}
+			if !commonerrors.Any(res, want) {
+				ev.Fail(t, prop, test, c, "the last attempt failed with a context error of its own (%v) while the helper's context was alive: result %q is not of kind %v", errFatal, res, want)
+			}
+			ev.Class("the last error was a context error of the attempt's own")
 		default:
 			want := errRetriable
 			if lastOutcome == oFatal {
